@@ -37,7 +37,10 @@ def gen_cases(tier, seed):
             cid = "conf-r%d-a%d-sc%d-%s-%s" % (sr, sa, sc, mode, layout)
             cases.append({"id": cid, "sig": ["conf", sr, sa, sc, mode, layout], "kind": "conf", "sr": sr, "sa": sa, "sc": sc, "mode": mode, "layout": layout})
     for fam in ("signature", "time", "addressing"):
-        cases.append({"id": "same-checks-%s" % fam, "sig": ["same-checks", fam], "kind": "meta", "family": fam, "deep": tier == "thorough"})
+        shards = 12 if fam == "signature" else 1
+        for sh in range(shards):
+            cases.append({"id": "same-checks-%s-%d" % (fam, sh), "sig": ["same-checks", fam, sh], "kind": "meta", "family": fam, "deep": tier == "thorough",
+                          "shard": sh, "shards": shards})
     for kind in ("foreign-cert", "garbled-cipher", "garbled-key", "empty-cipher", "truncated-encrypted-data"):
         for sr in (0, 1):
             cases.append({"id": "undecryptable-%s-r%d" % (kind, sr), "sig": ["undecryptable", kind, sr], "kind": "undec", "how": kind, "sr": sr})
@@ -176,10 +179,47 @@ def run_meta(case, ctx, viol, counters, sigs):
             muts = [(n, m) for n, f, m in xm.mutants(plain, xk.SAML, "Assertion", families=fams) if m is not None]
         else:
             muts = list(semantic_mutants(plain, fam, case["deep"]))
-        for name, m in muts:
+        variants = [(name, m, None) for name, m in muts]
+        if fam == "signature":
+            # a second, attacker-made assertion next to the genuine one (signed with a key the SP does not trust, or unsigned); in the
+            # encrypted form either every assertion or only the attacker's is encrypted - several EncryptedData at the outer layer
+            d0 = xk.Doc(plain)
+            a0 = d0.find(xk.SAML, "Assertion")[0]
+            for sig_kind in ("untrusted-signature", "unsigned"):
+                if sig_kind == "unsigned" and not was:
+                    continue      # an SP that requires no signature may accept unsigned assertions; only the one-assertion rule refuses the plain form
+                evil = xm.evilize(d0.standalone(a0), new_id=a0.attrs["ID"] + "x", keep_sig=False)
+                for where in ("after", "before"):
+                    dd = d0.insert_after(a0, evil) if where == "after" else d0.insert_before(a0, evil)
+                    txt = dd.text()
+                    if sig_kind == "untrusted-signature":
+                        txt = xk.sign_element(txt, xk.SAML, "Assertion", a0.attrs["ID"] + "x", fed.key(9)[0], "rsa-sha256", fed.cert_body(9))
+                    idx_evil = 1 if where == "after" else 0
+                    variants.append(("extra-assertion-%s:%s:all-encrypted" % (sig_kind, where), txt, None))
+                    variants.append(("extra-assertion-%s:%s:only-extra-encrypted" % (sig_kind, where), txt, [idx_evil]))
+                    variants.append(("extra-assertion-%s:%s:only-genuine-encrypted" % (sig_kind, where), txt, [1 - idx_evil]))
+        if fam == "signature" and was:
+            # PEFIM-shaped genuine answer (signed plain assertion carrying an encrypted advice assertion) with an attacker-made assertion
+            # appended: in the encrypted form there are two EncryptedData in the document and the attacker's is not the first
+            try:
+                pef = fed.issue(idp, ident, sign_response=False, sign_assertion=True, pefim=True)
+                dp = xk.Doc(pef)
+                main = [c for c in dp.root.children if c.tag == (xk.SAML, "Assertion")][0]
+                if dp.find(xk.XENC, "EncryptedData"):
+                    ev = xm.evilize(strip_advice(dp.standalone(main)), new_id=main.attrs["ID"] + "x", keep_sig=False)
+                    for where in ("after", "before"):
+                        dd = dp.insert_after(main, ev) if where == "after" else dp.insert_before(main, ev)
+                        txt = xk.sign_element(dd.text(), xk.SAML, "Assertion", main.attrs["ID"] + "x", fed.key(9)[0], "rsa-sha256", fed.cert_body(9))
+                        variants.append(("pefim-genuine+extra-assertion-untrusted-signature:%s:only-extra-encrypted" % where, txt, [1 if where == "after" else 0]))
+                else:
+                    counters["pefim_base_without_ciphertext"] = 1
+            except Exception as exc:
+                counters["pefim_base_failed:" + type(exc).__name__] = 1
+        variants = [v for i, v in enumerate(variants) if i % case.get("shards", 1) == case.get("shard", 0)]
+        for name, m, which in variants:
             rp, ep = fed.deliver(sp, m, dict(OUT), conv_info={"entity_id": fed.SP_EID, "remote_addr": "0.0.0.0"})
             try:
-                menc = xk.encrypt_assertions(m, sp_cert)
+                menc = xk.encrypt_assertions(m, sp_cert, which=which)
             except Exception:
                 counters["mutants_not_encryptable"] = counters.get("mutants_not_encryptable", 0) + 1
                 continue
@@ -189,6 +229,13 @@ def run_meta(case, ctx, viol, counters, sigs):
             plain_rej, enc_acc = rp is None, re_ is not None
             if plain_rej:
                 counters["plain_rejected"] = counters.get("plain_rejected", 0) + 1
+            if enc_acc and not plain_rej:
+                # both forms accepted: the identity must be the same
+                ia, ib = fed.identity_of(rp), fed.identity_of(re_)
+                if ia.get("ava") != ib.get("ava") or (ia.get("name_id") or {}).get("text") != (ib.get("name_id") or {}).get("text"):
+                    viol.append({"key": "C17/encrypted-form-yields-other-identity/" + fam,
+                                 "what": "mutant %s: plain form gives %r / %r, encrypted form %r / %r" % (
+                                     name, ia.get("ava"), (ia.get("name_id") or {}).get("text"), ib.get("ava"), (ib.get("name_id") or {}).get("text"))})
             if plain_rej and enc_acc:
                 viol.append({"key": "C17/check-skipped-for-decrypted-assertion/" + fam,
                              "what": "mutant %s (family %s, SP wants assertion signed=%d): the plain form is rejected (%s) but the same assertion inside an EncryptedAssertion is accepted with %r" % (
@@ -196,6 +243,12 @@ def run_meta(case, ctx, viol, counters, sigs):
                              "detail": {"plain": m[:5000]}})
             if fam != "signature" and not plain_rej:
                 counters["semantic_mutant_accepted_in_plain_form"] = counters.get("semantic_mutant_accepted_in_plain_form", 0) + 1
+
+
+def strip_advice(elem_bytes):
+    d = xk.Doc(elem_bytes)
+    adv = d.root.child(xk.SAML, "Advice")
+    return d.remove(adv).b if adv is not None else d.b
 
 
 def run_undec(case, ctx, viol, counters):
